@@ -244,6 +244,7 @@ def _solve_whole(model, cap_nodes=200_000, cap_solutions=4096):
         if state["nodes"] > cap_nodes:
             raise NodeCap()
 
+
     if use_onehot:
         groups = [[v for v, _ in rows[r][0]] for r in onehot_rows]
         gmax_suffix = [0] * (len(groups) + 1)
@@ -266,6 +267,10 @@ def _solve_whole(model, cap_nodes=200_000, cap_solutions=4096):
             return True
 
         dynamic = nv > 24
+        if dynamic:
+            # nodes are dear with the dynamic bound (it walks every undecided group): keep the worst case of one
+            # solve at a few seconds; a run that hits the cap is discarded and counted, never judged
+            cap_nodes = min(cap_nodes, 12_000)
 
         def optimistic(g):
             """Best still attainable from the undecided groups: per group the largest coefficient among the
